@@ -177,3 +177,59 @@ Proof.
   destruct (Nat.ltb_spec 3 (List.length rs)); [lia|].
   rewrite (py_int_spelling _ Hc), (parse_ranges_texts rs Hrs). reflexivity.
 Qed.
+
+(* ---- small statements restated in Properties/C17.v ---- *)
+Definition tk {T} (S : Scalar T) (s : string) (z : Z) : tok (T:=T) := mkTok s (sofZ S z) z.
+
+Lemma p_C17_tr_lengths_never_13 : forall T (S : Scalar T) (l : list (trc (T:=T))) r,
+  stage_trs S l [] = Ok r -> forall p, In p r -> snd p <> 13%nat.
+Proof. intros T S l r H. eapply stage_trs_lengths; [exact H|]. intros p []. Qed.
+
+Lemma p_C17_inline_m_rejected : forall T (S : Scalar T) star trs (ps rest : list (tok (T:=T))),
+  forallb numeric_lead ps = true -> forallb (fun p => float_lit (tsp p)) ps = true ->
+  stops rest -> List.length ps = 13%nat ->
+  seqb S (last (map tval ps) (s1 S)) (s1 S) = false ->
+  parse_trcl S star trs (ps ++ rest) = Err ETransformation /\
+  fill_params S star trs (ps ++ rest) = Err ETransformation.
+Proof. intros; split; [apply trcl_m_rejected|apply inline_m_rejected]; assumption. Qed.
+
+Lemma p_C17_macro_arity_exact : forall T (S : Scalar T) mn (p : list T),
+  In mn macros ->
+  (In (List.length p) (macro_arities mn) -> is_ok (surface_check S mn p) = true) /\
+  (~ In (List.length p) (macro_arities mn) -> is_ok (surface_check S mn p) = false) /\
+  (p <> [] -> ~ In (List.length p) (macro_arities mn) -> surface_check S mn p = Err EMacroBody).
+Proof.
+  intros T S mn p Hm. split; [|split].
+  - apply macro_arity_accepted; assumption.
+  - apply macro_arity_rejected; assumption.
+  - intros; apply macro_arity_error; assumption.
+Qed.
+
+Lemma p_C17_surplus_surface_params_refuted : forall T (S : Scalar T) (x : T) (surplus : list T),
+  surface_check S "so" (x :: surplus) = Ok (1%nat, 1%nat) /\
+  surface_check S "px" (x :: surplus) = Ok (1%nat, 1%nat) /\
+  surface_check S "cz" (x :: surplus) = Ok (1%nat, 1%nat) /\
+  surface_check S "c/z" (x :: x :: x :: surplus) = Ok (1%nat, 1%nat) /\
+  surface_check S "sx" (x :: x :: surplus) = Ok (1%nat, 1%nat) /\
+  is_ok (surface_check S "sq" (x :: x :: x :: x :: x :: x :: x :: x :: x :: x :: surplus)) = true.
+Proof. intros; repeat split; reflexivity. Qed.
+
+Lemma p_C17_gq_short_params_refuted : forall T (S : Scalar T) (x : T) (p : list T),
+  surface_check S "gq" (x :: p) = Ok (1%nat, 1%nat).
+Proof. intros; reflexivity. Qed.
+
+Lemma p_C17_facet_check_exact : forall nt4 k,
+  (facet_check nt4 k = Ok tt <-> (k <= nt4)%nat) /\
+  ((nt4 < k)%nat -> facet_check nt4 k = Err ECellConversion).
+Proof. intros; split; [apply facet_check_exact|apply facet_range_rejected]. Qed.
+
+Lemma p_C17_facet_zero_refuted : forall nt4, facet_check nt4 0 = Ok tt.
+Proof. intros; reflexivity. Qed.
+
+Lemma p_C17_fill_array_surplus_3_refuted : forall T (S : Scalar T),
+  parse_fill S false []
+    [tk S "0:1" 0; tk S "0:1" 0; tk S "0:0" 0; tk S "2" 2; tk S "2" 2; tk S "2" 2; tk S "2" 2;
+     tk S "7" 7; tk S "8" 8; tk S "9" 9]%Z
+  = Ok (mkFill (Some [(0, 1); (0, 1); (0, 0)]%Z) [Some 2; Some 2; Some 2; Some 2]%Z 12, []).
+Proof. intros; vm_compute; reflexivity. Qed.
+
